@@ -188,7 +188,7 @@ def run_case(case: dict) -> dict:
         if case["part"] == "doc":
             path = str(work / f"doc_{core.sha(case['seed'])}.xml")
             info = gen_sbml.gen_document(rng, path, hostile_ids=case["hostile"])
-            label = "+".join(f for f in info["features"] if f in ("hostile_identifier", "rule_defined_stoichiometry", "has_only_substance_units", "initial_assignment_species", "boundary_species", "local_parameter")) or "plain"
+            label = "+".join(f for f in info["features"] if f in ("hostile_identifier", "rule_defined_stoichiometry", "has_only_substance_units", "initial_assignment_species", "boundary_species", "local_parameter", "helper_name_collision")) or "plain"
             try:
                 model = sbml.read(Path(path))
             except Exception as e:  # noqa: BLE001
